@@ -344,4 +344,18 @@ def lexLt (a b : Nat × Nat) : Prop := a.1 < b.1 ∨ (a.1 = b.1 ∧ a.2 < b.2)
 def recordTTL (n : Nat) (train : Nat → Nat → Bool) : List Int :=
   (List.range n).map fun t => int16OfWord (encodeWord fun k => train k t)
 
+/-! ## Reading a long recording window by window (caller side; used by theorem statements and by the driver) -/
+
+/-- What a caller does on a long recording: the trace is visited in consecutive windows `w₀, w₁, …`; every window
+but the first is read starting ONE SAMPLE EARLIER (`prev` = the last sample already seen), the detector `D` runs on
+what was read and its events are moved by the position of the first sample read (`sh`).  `off` = number of samples
+before the current window. -/
+def chunked {ρ ε : Type} (D : List ρ → List ε) (sh : Nat → ε → ε) : Nat → Option ρ → List (List ρ) → List ε
+  | _, _, [] => []
+  | off, prev, w :: ws =>
+    (match prev with
+      | some r => (D (r :: w)).map (sh (off - 1))
+      | none => (D w).map (sh off)) ++
+    chunked D sh (off + w.length) (match w.getLast? with | some r => some r | none => prev) ws
+
 end IblVerif.Sync
